@@ -82,6 +82,8 @@ def parse_bracket(expr):
             continue
         if re.fullmatch(r"0x[0-9a-f]+|\d+", term):
             v = int(term, 0)
+            if v >= 1 << 63:
+                v -= 1 << 64
             r["disp"] += -v if neg else v
             continue
         if neg:
@@ -217,14 +219,14 @@ def decode_line(addr, text, next_addr):
     return (addr, K_MEM, br["base"], br["index"], br["scale"], br["disp"], size, flags, mask, 0)
 
 
-_FAST_NONE = {}
+STRING_MNEMS = {b + x for b in STRING_INS for x in ("", "b", "w", "d", "q")}
 
 
 def decode_fast(addr, text):
     """instructions without any memory syntax: only the implicit stack accesses matter"""
     t = text.split(None, 2)
     m = t[0]
-    if m in PREFIXES or m.startswith("rex") or m.startswith("."):
+    if m in PREFIXES or m in STRING_MNEMS or m.startswith("rex") or m.startswith("."):
         return decode_line(addr, text, None)
     if m in STACK_INS:
         sz, wr = STACK_INS[m]
@@ -268,47 +270,52 @@ def build_optab(image, out, timeout=900):
     if p.returncode != 0:
         raise RuntimeError("objdump failed: " + p.stderr.decode(errors="replace")[-500:])
     lines = []
-    for l in p.stdout.decode(errors="replace").splitlines():
-        m = LINE_RE.match(l)
-        if m:
-            lines.append((int(m.group(1), 16), m.group(2)))
-        elif not l.strip() or l.endswith(":") or l.startswith("Disassembly"):
-            lines.append(None)       # section / symbol boundary
+    for l in p.stdout.decode(errors="replace").split("\n"):
+        if l[:1] == " " and "\t" in l:
+            a, t = l.split("\t", 1)
+            try:
+                lines.append((int(a.strip()[:-1], 16), t))
+            except ValueError:
+                pass
     recs = []
     stats = {"instructions": 0, "mem": 0, "rip": 0, "vsib": 0, "string": 0, "stack": 0, "undecoded": 0, "masked": 0}
     undec_samples = []
     n = len(lines)
-    for i, it in enumerate(lines):
-        if it is None:
-            continue
-        addr, text = it
-        nxt = None
-        j = i + 1
-        while j < n and lines[j] is None:
-            j += 1
-        if j < n:
-            nxt = lines[j][0]
-        if "[" not in text and ":0x" not in text and "s" not in text[:6] and "(" not in text:
-            # fast path: no memory syntax, not a string instruction, not push/pop/call/ret... handled below
-            r = decode_fast(addr, text)
-        else:
-            r = decode_line(addr, text, nxt)
+    names = {K_MEM: "mem", K_RIP: "rip", K_VSIB: "vsib", K_STR: "string", K_STACK: "stack", K_UNDEC: "undecoded"}
+    memo = {}        # instruction text -> record with address 0 (K_RIP: disp relative to the next instruction)
+    undec = (0, K_UNDEC, 0xff, 0xff, 1, 0, 0, 0, 0, 0)
+    for i, (addr, text) in enumerate(lines):
+        h = text.find("#")
+        if h >= 0:
+            text = text[:h]
+        r = memo.get(text, 0)
+        if r == 0:
+            if "[" not in text and ":0x" not in text and "(" not in text:
+                r = decode_fast(0, text)
+            else:
+                r = decode_line(0, text, 0)
+            if r is not None:
+                try:
+                    REC.pack(*r)
+                except struct.error:
+                    r = undec
+            memo[text] = r
         if r is None:
             continue
-        try:
-            REC.pack(*r)
-        except struct.error:
-            r = (addr, K_UNDEC, 0xff, 0xff, 1, 0, 0, 0, 0, 0)
-        stats["instructions"] += 1
         k = r[1]
-        key = {K_MEM: "mem", K_RIP: "rip", K_VSIB: "vsib", K_STR: "string", K_STACK: "stack", K_UNDEC: "undecoded"}.get(k)
-        if key:
-            stats[key] += 1
+        if k == K_RIP:
+            if i + 1 < n:
+                r = (addr, k, r[2], r[3], r[4], lines[i + 1][0] + r[5]) + r[6:]
+            else:
+                r = undec
+        stats["instructions"] += 1
+        if k:
+            stats[names[k]] += 1
+            if k == K_UNDEC and len(undec_samples) < 12:
+                undec_samples.append("%x: %s" % (addr, text.strip()))
         if r[7] & F_MASKED:
             stats["masked"] += 1
-        if k == K_UNDEC and len(undec_samples) < 12:
-            undec_samples.append("%x: %s" % (addr, text))
-        recs.append(r)
+        recs.append((addr,) + r[1:])
     recs.sort(key=lambda r: r[0])
     # objdump lists an address once; keep the first record of duplicates (overlapping sections never happen)
     tmp = out + ".tmp.%d" % os.getpid()
@@ -371,3 +378,256 @@ def run_step(exe, variant, lines, tag, images, workdir, batch=1, dumps=(), timeo
         r = parse_step_output(so)
         r.update({"rc": -9, "stderr": "timeout (hang)", "script": sp})
     return r
+
+
+# ----------------------------------------------------------------------------------------------
+# tie (d): case plan
+# ----------------------------------------------------------------------------------------------
+EXPECTED_TYPE = {"sse:f0": ("1", "3"), "sse:f1": ("1", "1"), "sse:f2": ("1", "2"), "avx2:f0": ("2", "2"),
+                 "avx2:f1": ("2", "1"), "avx512:f0": ("3", "2"), "avx512:f1": ("3", "1")}
+# order in which the 9 keys of key_variants() [base, flip, flip, flip, 0^n, 1^n, rnd, rnd, rnd] are used when
+# fewer than 9 fit the budget: base, all-zero, random, single-bit flip, all-one, ...
+KEY_PRIORITY = [0, 4, 6, 1, 5, 7, 2, 8, 3]
+CMP_FIELDS = ("steps", "lib", "other", "out", "mem", "undec", "unk", "ihash", "dhash")
+
+
+def est_steps(variant, algo, ln, off):
+    """rough number of single steps of one job (measured on this library; used for scheduling and
+    for choosing how many keys fit the budget, never for a verdict)"""
+    a512 = variant.startswith("avx512")
+    if algo in ("des", "docsis"):
+        blocks = max(1, (ln + 7) // 8)
+        return 1200 + 2200 * blocks if a512 else 78000 * blocks
+    if algo == "des3":
+        blocks = max(1, (ln + 7) // 8)
+        return 1700 + 6600 * blocks if a512 else 233000 * blocks
+    if algo == "kasumi_f8":
+        return 44500 * (1 + (ln + 63) // 64)
+    if algo == "kasumi_f9":
+        return 44500 * (2 + (ln + 7) // 8)
+    return 12000 + ln // 2
+
+
+def step_classes(tier):
+    """(algo, dir, len, off) public classes; at least one non-block-multiple where the mode allows it"""
+    c = {}
+    th = tier != "quick"
+    for d in (1, 2):
+        c[("des", d)] = [(8, 0), (24, 0)] if th else [(8, 0), (16, 0)]
+        c[("des3", d)] = [(8, 0), (16, 0)] if th else [(8, 0), (16, 0)]
+        c[("docsis", d)] = [(5, 0), (16, 0), (21, 0)] if th else [(5, 0), (13, 0)]
+    c[("kasumi_f8", 1)] = [(64, 0), (77, 3), (130, 5)] if th else [(64, 0), (77, 3)]
+    c[("kasumi_f9", 1)] = [(9, 0), (16, 0), (21, 0)] if th else [(9, 0), (21, 0)]
+    c[("snow3g_uea2", 1)] = [(32, 0), (256, 0), (77, 3), (200, 13), (1024, 0)] if th else [(256, 0), (77, 3)]
+    c[("snow3g_uia2", 1)] = [(8, 0), (64, 0), (77, 0), (300, 0)] if th else [(64, 0), (77, 0)]
+    return c
+
+
+def plan(rng, tier, variants, key_variants, keylen, ivlen):
+    """-> list of tasks.  A task = one k7_step process = one (variant, public class, batch) with a list
+    of groups that differ in the keys only.
+
+    Budget (a single step costs ~40-50 us on this host, the #DB trap leaves the VM): the cheap paths
+    (AVX512 DES x16, SNOW3G everywhere: 3-15 k steps per job) get all 9 keys, every class and a
+    several-jobs-in-flight scenario; the C code paths with 64-row scans (DES/3DES/DOCSIS on SSE/AVX2:
+    78 k steps per DES block; KASUMI on every variant: 44 k steps per block - the SAME kernel
+    functions on every variant, only the manager glue differs) get 2..5 keys; in the quick tier
+    they are additionally sub-sampled per variant (rotating with the variant index and the seed)."""
+    classes = step_classes(tier)
+    th = tier != "quick"
+    tasks = []
+    rot = rng.below(1 << 20)
+    for vi, variant in enumerate(variants):
+        for (algo, d), lst in classes.items():
+            expensive = est_steps(variant, algo, lst[0][0], lst[0][1]) > 40000
+            use = list(lst)
+            if expensive and not th:
+                if algo in ("des", "des3", "docsis"):
+                    # one (mode, direction) per variant
+                    if (algo, d) != [("des", 1), ("docsis", 2), ("des3", 1), ("des", 2), ("docsis", 1), ("des3", 2)][(vi + rot) % 6]:
+                        continue
+                    use = [lst[0]] if algo == "des3" else [lst[(vi + rot) % len(lst)]]
+                else:
+                    # KASUMI: f8 or f9 per variant, one class
+                    if algo != ("kasumi_f8", "kasumi_f9")[(vi + rot) % 2]:
+                        continue
+                    use = [lst[((vi + rot) // 2) % len(lst)]]
+            for ci, (ln, off) in enumerate(use):
+                keys = key_variants(rng, algo)
+                iv = rng.bytes(ivlen[algo])
+                mseed = rng.below(1 << 30)
+                per_job = est_steps(variant, algo, ln, off)
+                if not expensive:
+                    nk = 9
+                elif th:
+                    nk = 5 if per_job <= 160000 else 3
+                else:
+                    nk = 3 if per_job <= 100000 else 2
+                kidx = KEY_PRIORITY[:nk]
+                tasks.append({"variant": variant, "algo": algo, "dir": d, "len": ln, "off": off, "batch": 1,
+                              "keys": [keys[k] for k in kidx], "key_kinds": kidx, "iv": iv, "mseed": mseed,
+                              "cost": per_job * nk})
+                # several jobs in flight with different keys (multi-buffer managers); cheap paths only
+                if not expensive and (th or ci == 0):
+                    ng = 9 if th else 4
+                    groups = [[keys[(g + j) % 9] for j in range(3)] for g in range(ng)]
+                    tasks.append({"variant": variant, "algo": algo, "dir": d, "len": ln, "off": off, "batch": 3,
+                                  "key_groups": groups, "iv": iv, "mseed": mseed,
+                                  "lens": [(ln, off), lst[-1], (ln, off)], "cost": per_job * 3 * ng})
+    return tasks
+
+
+def task_lines(t):
+    """script lines of a task (groups of t['batch'] consecutive lines)"""
+    iv = t["iv"].hex() if t["iv"] else "-"
+    L = []
+    if t["batch"] == 1:
+        for i, k in enumerate(t["keys"]):
+            L.append("k%d %s %d %d %d %s %s %d" % (i, t["algo"], t["dir"], t["len"], t["off"], k.hex(), iv, t["mseed"]))
+    else:
+        for g, ks in enumerate(t["key_groups"]):
+            for j, k in enumerate(ks):
+                ln, off = t["lens"][j]
+                L.append("g%dj%d %s %d %d %d %s %s %d" % (g, j, t["algo"], t["dir"], ln, off, k.hex(), iv, t["mseed"] + j))
+    return L
+
+
+def task_tag(t):
+    return "%s_%s_%d_%d_%d_b%d" % (t["variant"].replace(":", ""), t["algo"], t["dir"], t["len"], t["off"], t["batch"])
+
+
+def seg_key(s):
+    return tuple(s.get(k) for k in CMP_FIELDS)
+
+
+def evaluate(t, r):
+    """-> dict(ok, problems=[...], diff=(group_a, group_b) or None, stats)"""
+    lines = task_lines(t)
+    ngroups = len(lines) // t["batch"]
+    out = {"ok": True, "harness": None, "diff": None, "pairs": 0, "steps": 0, "mem": 0, "undec": 0, "unk": 0,
+           "out_steps": 0, "lib_steps": 0, "xst": 0, "distinct_outputs": 0}
+    want = EXPECTED_TYPE.get(t["variant"])
+    v = r.get("variant")
+    if v is None or (want and (v.get("arch"), v.get("type")) != want):
+        out.update(ok=False, harness="variant %s not available or of unexpected type: %s; stderr: %s"
+                   % (t["variant"], v, r.get("stderr", "")[-300:]))
+        return out
+    segs = r["segs"]
+    crashed = [s for s in segs if "crash" in s]
+    if crashed:
+        out.update(ok=False, harness="crash/hang inside the traced region: %s" % crashed[0])
+        return out
+    if r["rc"] != 0 or len(segs) != ngroups or len(r["cases"]) != len(lines):
+        out.update(ok=False, harness="k7_step rc=%s segments=%d/%d cases=%d/%d stderr=%s"
+                   % (r["rc"], len(segs), ngroups, len(r["cases"]), len(lines), r.get("stderr", "")[-300:]))
+        return out
+    bad = [c for c in r["cases"] if c.get("status") != "3"]
+    if bad:
+        out.update(ok=False, harness="job not completed: %s" % bad[0])
+        return out
+    for s in segs:
+        out["steps"] += s["steps"]
+        out["mem"] += s["mem"]
+        out["undec"] += s["undec"]
+        out["unk"] += s["unk"]
+        out["out_steps"] += s["out"]
+        out["lib_steps"] += s["lib"]
+        out["xst"] += s["xst"]
+    out["distinct_outputs"] = len(set(c.get("out") for c in r["cases"]))
+    ref = segs[0]
+    for g in range(1, ngroups):
+        out["pairs"] += 1
+        if seg_key(segs[g]) != seg_key(ref) and out["diff"] is None:
+            out["ok"] = False
+            out["diff"] = (0, g, {k: (ref.get(k), segs[g].get(k)) for k in CMP_FIELDS if ref.get(k) != segs[g].get(k)})
+    return out
+
+
+_sym_cache = {}
+
+
+def source_of(so, rel):
+    """lib-relative address -> 'function file:line' (addr2line; NASM objects carry line info as well)"""
+    key = (so, rel)
+    if key not in _sym_cache:
+        p = common.run(["addr2line", "-f", "-e", so, "%x" % rel], timeout=120)
+        t = p.stdout.split()
+        fn = t[0] if t else "?"
+        loc = t[1] if len(t) > 1 else "?"
+        loc = re.sub(r"^.*?/lib/", "lib/", loc)
+        _sym_cache[key] = (fn, loc)
+    return _sym_cache[key]
+
+
+def disasm_at(so, rel):
+    p = common.run(["objdump", "-d", "--no-show-raw-insn", "-M", "intel", "--start-address=0x%x" % rel,
+                    "--stop-address=0x%x" % (rel + 16), so], timeout=120)
+    for l in p.stdout.splitlines():
+        m = LINE_RE.match(l)
+        if m and int(m.group(1), 16) == rel:
+            return " ".join(m.group(2).split())
+    return "?"
+
+
+def first_divergence(exe, so, t, ga, gb, images, workdir, tag):
+    """re-run two groups of a task with full dumps and locate the first differing step"""
+    lines = task_lines(t)
+    b = t["batch"]
+    pair = lines[ga * b:(ga + 1) * b] + lines[gb * b:(gb + 1) * b]
+    da, db = os.path.join(workdir, "sd_%s_a.txt" % tag), os.path.join(workdir, "sd_%s_b.txt" % tag)
+    r = run_step(exe, t["variant"], pair, "div_" + tag, images, workdir, batch=b, dumps=((0, da), (1, db)))
+    res = {"lines_a": pair[:b], "lines_b": pair[b:], "segments": [{k: s.get(k) for k in CMP_FIELDS} for s in r["segs"]]}
+    res.update(divergence_from_dumps(so, da, db))
+    return res
+
+
+def divergence_from_dumps(so, da, db):
+    res = {}
+    try:
+        fa, fb = open(da), open(db)
+    except OSError:
+        res["note"] = "dump failed"
+        return res
+    n = 0
+    prev = None
+
+    def lib_rel(line):
+        m = re.match(r"I lib\+([0-9a-f]+)", line or "")
+        return int(m.group(1), 16) if m else None
+    last_lib = None
+    for la, lb in zip(fa, fb):
+        if la != lb:
+            ia, ib = la.split()[:2], lb.split()[:2]
+            res["step_index"] = n
+            res["key_a"], res["key_b"] = la.strip(), lb.strip()
+            if ia != ib:
+                # control flow: the previous instruction decided differently
+                res["kind"] = "branch"
+                at = lib_rel(prev)
+                res["branch_instruction"] = (prev or "").strip()
+                res["targets"] = [" ".join(ia), " ".join(ib)]
+            else:
+                res["kind"] = "address"
+                at = lib_rel(la)
+                res["addresses"] = [" ".join(la.split()[2:]), " ".join(lb.split()[2:])]
+            if at is None:
+                at = last_lib
+                res["note"] = "the diverging instruction is outside the library; last library instruction reported"
+            if at is not None:
+                fn, loc = source_of(so, at)
+                res["rip"] = "lib+%x" % at
+                res["function"], res["source"] = fn, loc
+                res["instruction"] = disasm_at(so, at)
+                tgt = [lib_rel(la), lib_rel(lb)] if res["kind"] == "branch" else []
+                res["target_sources"] = [("%s %s" % source_of(so, x)) if x is not None else "?" for x in tgt]
+            return res
+        n += 1
+        prev = la
+        x = lib_rel(la)
+        if x is not None:
+            last_lib = x
+    res["note"] = "traces differ in length only"
+    res["common_prefix_steps"] = n
+    if last_lib is not None:
+        res["function"], res["source"] = source_of(so, last_lib)
+    return res
